@@ -146,6 +146,33 @@ static void b_pls(void) {
   DelPLSModel(&mod); DelMatrix(&x); DelMatrix(&y); rm_free(e);
 }
 
+/* ---------------------------------------------------------------- PLS2 with responses exhausted before nlv */
+static void b_pls2(void) {
+  /* X: orthogonal integer columns (Hadamard rows) with per-column scale, Y = X B exactly (2 responses): in exact
+   * arithmetic the Y residual is exhausted after at most 2 latent variables; in floating point it may be exactly
+   * zero (NaN measure) or rounding noise (finite, non-converging measure) */
+  static const double H[3][4] = {{1, 1, -1, -1}, {1, -1, 1, -1}, {1, -1, -1, 1}};
+  int c = 2 + vx_choose("cols-2", 2), sc = vx_choose("colscale", 4), nlv = 1 + vx_choose("nlv-1", 3), scal = vx_choose("scaling", 2) - 1;
+  int bcode = vx_choose("B", 729), rep = 1 + vx_choose("rowrep-1", 2);
+  int r = 4 * rep;
+  matrix *x, *y; NewMatrix(&x, (size_t)r, (size_t)c); NewMatrix(&y, (size_t)r, 2);
+  static const double CS[4][3] = {{1, 1, 1}, {1, 2, 3}, {3, 1, 2}, {1, 1, 2}};
+  for (int i = 0; i < r; i++) for (int j = 0; j < c; j++) x->data[i][j] = H[j][i % 4] * CS[sc][j];
+  int code = bcode; double B[3][2];
+  for (int j = 0; j < 3; j++) for (int k = 0; k < 2; k++) { B[j][k] = (double)(code % 3) - 1.0; code /= 3; }
+  int nz = 0; for (int i = 0; i < r; i++) for (int k = 0; k < 2; k++) { double v = 0; for (int j = 0; j < c; j++) v += x->data[i][j] * B[j][k]; y->data[i][k] = v; if (v != 0) nz = 1; }
+  const char *cls = !nz ? "zero-Y" : "Y-exactly-linear-in-orthogonal-X";
+  PLSMODEL *mod; NewPLSModel(&mod);
+  arm("PLS", cls);
+  PLS(x, y, (size_t)nlv, scal, scal, mod, NULL);
+  vx_transition(1);
+  char key[128];
+  if (nz && mod->xscores->col >= 1) { int fin = 1; for (int i = 0; i < r; i++) if (!isfinite(mod->xscores->data[i][0])) fin = 0;
+    snprintf(key, sizeof key, "finite|PLS|%s", cls); vx_check(fin, key, "cols %d colscale %d B code %d nlv %d scaling %d: first latent variable not finite", c, sc, bcode, nlv, scal); }
+  vx_outcome(hm_hash(mod->xscores, (uint64_t)(c * 7 + nlv)));
+  DelPLSModel(&mod); DelMatrix(&x); DelMatrix(&y);
+}
+
 /* ---------------------------------------------------------------- CPCA */
 static void b_cpca(void) {
   int w1 = 1 + vx_choose("width1-1", 2), w2 = 1 + vx_choose("width2-1", 2), r = 3;
@@ -246,18 +273,19 @@ static void b_simplex(void) {
 
 static void body(void) {
   vx_tick_ceiling = 100000;
-  switch (vx_choose("family", 6)) {
+  switch (vx_choose("family", 7)) {
     case 0: b_pca(); break;
     case 1: b_pls(); break;
     case 2: b_cpca(); break;
     case 3: b_kmeans(); break;
     case 4: b_mlrcv(); break;
+    case 5: b_pls2(); break;
     default: b_simplex(); break;
   }
 }
 
 int main(int argc, char **argv) {
-  vx_describe("alphabet", "PCA: every matrix over {0,1,2} of shape 2x2, 3x2, 2x3 (thorough: + 3x3) x scaling {-1,0,1} x npc 1..cols+2 x {exact, 3 indexed 2^-20 perturbations}; PLS: every X over {0,1,2} of shape 3x2 (thorough: + 4x2) x every y in {0,1}^n x nlv 1..3 x scaling {0,1}; CPCA: 2 blocks of every 3x1 / 3x2 matrix over {0,1} x scaling {0,1} x npc 1..3; KMeans: every multiset of <= 5 points from a 3-point lattice x k 1..4 x 4 initialisers x 2 seeds; MLR LOO / bootstrap validation on collinear, constant-column and regular X, every group count 1..n; Nelder-Mead on constant, linear, |x| and quadratic objectives, zero and non-zero steps, 0/10/2000 iterations");
+  vx_describe("alphabet", "PCA: every matrix over {0,1,2} of shape 2x2, 3x2, 2x3 (thorough: + 3x3) x scaling {-1,0,1} x npc 1..cols+2 x {exact, 3 indexed 2^-20 perturbations}; PLS2: orthogonal integer X (4 or 8 rows, 2-3 columns, 4 column scalings) with 2 responses Y = X B for every B over {-1,0,1}^(3x2), nlv 1..3, scaling {-1,0}; PLS: every X over {0,1,2} of shape 3x2 (thorough: + 4x2) x every y in {0,1}^n x nlv 1..3 x scaling {0,1}; CPCA: 2 blocks of every 3x1 / 3x2 matrix over {0,1} x scaling {0,1} x npc 1..3; KMeans: every multiset of <= 5 points from a 3-point lattice x k 1..4 x 4 initialisers x 2 seeds; MLR LOO / bootstrap validation on collinear, constant-column and regular X, every group count 1..n; Nelder-Mead on constant, linear, |x| and quadratic objectives, zero and non-zero steps, 0/10/2000 iterations");
   vx_describe("oracle", "the call returns before the iteration tick ceiling (1e5 kernel calls; converging fits of these sizes need < 1e4); components up to the numerical rank (singular value^2 > 1e-9 of total) are finite, orthonormal, residual-orthogonal; explained variance beyond the rank is 0 and never NaN");
   vx_set_shard_depth(3);
   vx_set_dev_bound(1, 1);
